@@ -736,8 +736,18 @@ func IsValidFilter(filter string, forPublish bool) bool {
 			return false // [MQTT-4.8.2-1]
 		}
 
-		if strings.ContainsRune(group, '+') || strings.ContainsRune(group, '#') {
-			return false // [MQTT-4.8.2-2]
+		if group == "" || strings.ContainsRune(group, '+') || strings.ContainsRune(group, '#') {
+			return false // [MQTT-4.8.2-1] [MQTT-4.8.2-2]
+		}
+
+		if len(filter) <= len(prefix)+len(group)+2 {
+			return false // [MQTT-4.8.2-1] the share name must be followed by a topic filter
+		}
+	}
+
+	for _, level := range strings.Split(filter, "/") {
+		if len(level) > 1 && strings.ContainsAny(level, "+#") {
+			return false // [MQTT-4.7.1-1] [MQTT-4.7.1-2] wildcards must occupy an entire level
 		}
 	}
 
